@@ -97,6 +97,7 @@ class Probe(BaseNode):
     def startup(self, graph_state, timeout=None):
         # optional user hook run by AsyncGraph.start() before the episode's clock starts (e.g. homing a robot): may take a while
         if getattr(self, "slow_startup", 0): time.sleep(self.slow_startup)
+        self._startup_end = time.time()
         return True
 
     def init_state(self, rng=None, graph_state=None): return Out(jnp.array([1 + self.nid], dtype=jnp.int32), jnp.array([0.0], dtype=jnp.float32))
@@ -288,11 +289,11 @@ def run_history(job):
         try:
             raw_rec = g.get_record()
             # wall-clock episodes: when (in seconds since the episode's time origin) every node's first step started
-            first_ts = {n: float(onp.asarray(nr.steps.ts_end)[0] - onp.asarray(nr.steps.delay)[0]) for n, nr in raw_rec.nodes.items() if len(nr.steps.ts_start) > 0}
-            for n, nr in raw_rec.nodes.items():       # ... and when its first message was received
-                for m, ir in nr.inputs.items():
-                    tr = onp.asarray(ir.messages.ts_recv)
-                    if len(tr) > 0: first_ts[f"{m}>{n}"] = float(tr[0]) - float(onp.asarray(ir.messages.delay)[0])
+            # the episode's time origin (NodeRecord.ts_start, wall time) relative to the moment the last startup() hook of THIS episode returned: the clock of an
+            # episode starts after the start-up phase (an ordering of two host clock readings - no timing threshold involved)
+            ends = [getattr(n_, "_startup_end", None) for n_ in N.values()]
+            if all(e_ is not None for e_ in ends):
+                first_ts = {n: float(nr.ts_start) - max(ends) for n, nr in raw_rec.nodes.items()}
             c = canon_record(cfg, raw_rec, rec)
         except TypeError as e:
             c = dict(error="record_unavailable:" + str(e)[:80])
